@@ -13,6 +13,10 @@ import (
 
 func (p *wat2wasmWorker) findTypeIndexByIdent(ident string) wasm.Index {
 	if idx, err := strconv.Atoi(ident); err == nil {
+		// 数字索引指向文本中的第 idx 个类型定义: 相同的类型在二进制中会被合并, 索引需要重新查找
+		if idx >= 0 && idx < len(p.mWat.Types) {
+			return p.mustFindFuncTypeIndex(p.mWat.Types[idx].Type)
+		}
 		return wasm.Index(idx)
 	}
 	for _, x := range p.mWat.Types {
